@@ -296,6 +296,10 @@ func handleMethod(svr interface{}, serviceName string, desc *grpc.MethodDesc, un
 		}
 		sts := internal.UnaryServerTransportStream{Name: fullMethod}
 		resp, err := desc.Handler(svr, grpc.NewContextWithServerTransportStream(ctx, &sts), dec, unaryInt)
+		// the reply is about to be written: from now on setting headers or
+		// trailers (by a goroutine the handler left behind) fails, as it does
+		// with the in-process channel, instead of being silently lost
+		sts.Finish()
 		if err == nil && isNil(resp) {
 			// neither a response nor an error: that is a failed call, in every
 			// encoding (the JSON codec would render a nil message as a reply)
